@@ -235,6 +235,44 @@ def task_hyp(ctx: Ctx, shard: int, n: int) -> None:
     )
 
 
+def _k_di_long(c) -> CaseInfo:
+    """A long date interval (more than a year) is exactly the set of its days: iteration yields every day number once,
+    in order, as valid dates of the calendar; len, membership of both ends and of the neighbours agree."""
+    cid, a, ln = c["cal"], c["a"], c["len"]
+    cal = pyo.cal(cid)
+    if not (cal._min_days <= a and a + ln - 1 <= cal._max_days and 1 <= ln <= 1200):
+        raise InvalidCase
+    iv = _di(cid, a, a + ln - 1)
+    need(len(iv) == ln, "di-long/len", f"{len(iv)} != {ln}")
+    i = -1
+    for i, d in enumerate(iv):
+        need(i < ln, "di-long/iterates-too-far")
+        ref = pyo.date_from_day(cid, a + i)
+        need(d._days_since_epoch == a + i and pyo.fields(d) == pyo.fields(ref) and d.calendar is cal, "di-long/element", f"{cid}: element {i} is {pyo.fmt_date(d)} (day {d._days_since_epoch}), expected {pyo.fmt_date(ref)} (day {a + i})")
+    need(i == ln - 1, "di-long/count", f"{i + 1} elements, len {ln}")
+    need(pyo.date_from_day(cid, a) in iv and pyo.date_from_day(cid, a + ln - 1) in iv, "di-long/ends-not-contained")
+    if a - 1 >= cal._min_days:
+        need(pyo.date_from_day(cid, a - 1) not in iv, "di-long/day-before-contained")
+    if a + ln <= cal._max_days:
+        need(pyo.date_from_day(cid, a + ln) not in iv, "di-long/day-after-contained")
+    return CaseInfo(True, "di_long")
+
+
+def task_long(ctx: Ctx, cal: str, years: int) -> None:
+    """Intervals of 300-800 days starting in the last / first days of seed-chosen years (lunar years are short)."""
+    from pyoda_time import LocalDate
+
+    c = pyo.cal(cal)
+    ny = c.max_year - c.min_year + 1
+    y0 = c.min_year + 1 + sub_seed(ctx.seed, "c18long", cal) % max(1, ny - years - 3)
+    for y in range(y0, min(c.max_year - 2, y0 + years)):
+        d = LocalDate(y, 1, 1, c)
+        start = d._days_since_epoch - (d.day_of_year - 1)
+        for off, ln in ((-3, 360), (-9, 400), (2, 356), (-1, 740)):
+            if c._min_days <= start + off and start + off + ln <= c._max_days:
+                ctx.case("di_long", {"cal": cal, "a": start + off, "len": ln})
+
+
 def task_grid(ctx: Ctx, cal: str, anchors: list[int]) -> None:
     c = pyo.cal(cal)
     for a in anchors:
@@ -256,4 +294,5 @@ def tasks(tier: str, seed: int) -> list[Task]:
             anchors = anchors[:1] + anchors[-1:]
             # quick: a reduced grid is produced by the same task on 2 anchors (min edge and one seed-chosen)
         out.append(Task("task_grid", {"cal": cid, "anchors": anchors if tier != "quick" else anchors[:2]}, f"grid-{cid}"))
+        out.append(Task("task_long", {"cal": cid, "years": 12 if tier == "quick" else 300}, f"long-{cid}"))
     return out
